@@ -216,6 +216,29 @@ class Program:
             cls = nxt
         return None
 
+    def assigns_instance_attr(self, cls: str, name: str) -> bool:
+        """True if some method of the class (or of a base class in the program) stores to `self.<name>`: the attribute
+        exists on instances even if a ghost view of the class does not declare it."""
+        seen = set()
+        while cls and cls not in seen:
+            seen.add(cls)
+            ci = self.classes.get(cls)
+            if ci is None:
+                return True        # unknown base: cannot exclude it
+            for n in ast.walk(ci.node):
+                if isinstance(n, ast.Attribute) and n.attr == name and isinstance(n.ctx, ast.Store) \
+                        and isinstance(n.value, ast.Name) and n.value.id == "self":
+                    return True
+            nxt = None
+            for b in ci.bases:
+                if b in self.classes:
+                    nxt = b
+                    break
+                if b not in ("object", "Exception"):
+                    return True
+            cls = nxt
+        return False
+
     def is_subclass(self, cls: str, base: str) -> bool:
         seen = set()
         while cls and cls not in seen:
